@@ -9,6 +9,7 @@
     (⇔ some segment of one meets some segment of the other, `SegsMeet` = share a point),
     `lineIntersectsLine_symm`.
   * Point receiver / argument: `point_intersects_iff` (the four equations),
+    `point_intersects_line_iff` (exact: the point is on some segment),
     `geom_intersects_symm_pointrect`.
   * `geom_intersects_dispatch_symm`: Line×Poly, Rect×Line, Rect×Poly — the two argument orders
     run THE SAME computation; `geom_intersects_symm_partial`: symmetry of `Geom.intersects` on
@@ -16,6 +17,8 @@
   * ring × segment, soundness of `true`: `ringIntersectsSegment_sound` — a `true` answer
     always exhibits a point of the segment lying in the closed region of the ring (membership of
     the accepted endpoint is taken from the C01 characterisation as hypothesis `hmem`).
+    Lifted to ring × line string and ring × ring: `ringIntersectsLine_sound`,
+    `ringIntersectsRing_sound`.
 
   NOT PROVED (out of scope): completeness of the `false` answers of ring × segment
   (`ringIntersectsSegment = false → no common point`), and therefore the exactness of
@@ -62,49 +65,11 @@ theorem rect_intersects_symm (r o : Box) : r.intersects o = o.intersects r := by
 
 /-! ## Line × Line -/
 
-/-- the nested any-loop of `Line.intersectsLine` -/
-theorem anyMeet_iff (l m : Line) (hm : m.index = none) :
-    (List.range l.numSegments).any (fun i =>
-      (Ring.ser m).searchAny (l.segmentAt i).box (fun segB _ => (l.segmentAt i).intersects segB)) = true ↔
-    ∃ i, i < l.numSegments ∧ ∃ j, j < m.numSegments ∧
-      SegsMeet (l.segmentAt i).a (l.segmentAt i).b (m.segmentAt j).a (m.segmentAt j).b := by
-  rw [List.any_eq_true]
-  constructor
-  · rintro ⟨i, hi, h⟩
-    rw [ring_searchAny_iff (.ser m) hm] at h
-    obtain ⟨j, hj, -, hp⟩ := h
-    exact ⟨i, List.mem_range.1 hi, j, hj, (segIntersects_iff _ _).1 hp⟩
-  · rintro ⟨i, hi, j, hj, h⟩
-    refine ⟨i, List.mem_range.2 hi, ?_⟩
-    rw [ring_searchAny_iff (.ser m) hm]
-    exact ⟨j, hj, segBoxes_intersect_of_meet h, (segIntersects_iff _ _).2 h⟩
-
 theorem lineIntersectsLine_iff (l m : Line) (hl : Plain l) (hm : Plain m) :
     l.intersectsLine m = true ↔
       ∃ i, i < l.numSegments ∧ ∃ j, j < m.numSegments ∧
-        SegsMeet (l.segmentAt i).a (l.segmentAt i).b (m.segmentAt j).a (m.segmentAt j).b := by
-  unfold Line.intersectsLine
-  split_ifs with h1 h2 hn
-  · -- one of the two is empty: no segment
-    refine iff_of_false (by simp) ?_
-    rintro ⟨i, hi, j, hj, -⟩
-    simp only [Bool.or_eq_true] at h1
-    rcases h1 with h | h
-    · rw [(numSegments_eq_zero_iff l).2 h] at hi; omega
-    · rw [(numSegments_eq_zero_iff m).2 h] at hj; omega
-  · -- disjoint rectangles: a common point would lie in both
-    refine iff_of_false (by simp) ?_
-    rintro ⟨i, hi, j, hj, p, hp1, hp2⟩
-    have := intersects_of_common _ _ p (onSeg_in_rect l hl i hi p hp1) (onSeg_in_rect m hm j hj p hp2)
-    simp [this] at h2
-  · simp only
-    rw [anyMeet_iff m l hl.1]
-    constructor
-    · rintro ⟨j, hj, i, hi, h⟩
-      exact ⟨i, hi, j, hj, (K.segsMeet_symm _ _ _ _).1 h⟩
-    · rintro ⟨i, hi, j, hj, h⟩
-      exact ⟨j, hj, i, hi, (K.segsMeet_symm _ _ _ _).1 h⟩
-  · exact anyMeet_iff l m hm.1
+        SegsMeet (l.segmentAt i).a (l.segmentAt i).b (m.segmentAt j).a (m.segmentAt j).b :=
+  line_meet_iff l m hl hm
 
 theorem lineIntersectsLine_symm (l m : Line) (hl : Plain l) (hm : Plain m) :
     l.intersectsLine m = m.intersectsLine l := by
@@ -131,6 +96,13 @@ theorem point_intersects_iff (p : Pt) :
     (∀ l : Line, (Geom.point p).intersects (.line l) = l.containsPoint p) ∧
     (∀ poly : Poly, (Geom.point p).intersects (.poly poly) = poly.containsPoint p) :=
   ⟨fun _ => rfl, fun _ => rfl, fun _ => rfl, fun _ => rfl⟩
+
+/-- Point × Line (either order) is exact: the point lies on some segment -/
+theorem point_intersects_line_iff (p : Pt) (l : Line) (hidx : l.index = none) :
+    ((Geom.point p).intersects (.line l) = true ↔
+      ∃ i, i < l.numSegments ∧ OnSeg (l.segmentAt i).a (l.segmentAt i).b p) ∧
+    (Geom.line l).intersects (.point p) = (Geom.point p).intersects (.line l) :=
+  ⟨line_containsPoint_iff l hidx p, rfl⟩
 
 /-- Point × Rect is the specification's membership -/
 theorem point_intersects_rect_spec (p : Pt) (r : Box) :
@@ -219,6 +191,107 @@ theorem ringIntersectsSegment_sound_mk (pts : Array Pt) (seg : Seg)
   ringIntersectsSegment_sound (mkSeries pts true .none 0) (mkSeries_plain pts true 0).1 seg true
     (fun p h => (hmem p).1 h)
 
+/-! ## ring × line, ring × ring: a `true` answer exhibits a common point -/
+
+/-- every vertex of a non-empty series is an endpoint of one of its segments -/
+theorem vertex_on_segment (s : Series) (he : s.empty = false) (j : Nat) (hj : j < s.pts.size) :
+    ∃ i, i < s.numSegments ∧ OnSeg (s.segmentAt i).a (s.segmentAt i).b s.pts[j]! := by
+  have hn : s.numSegments = numSegmentsOf s.pts s.closed := rfl
+  unfold Series.empty at he
+  by_cases hlt : j < s.numSegments
+  · refine ⟨j, hlt, ?_⟩
+    have : (s.segmentAt j).a = s.pts[j]! := rfl
+    rw [← this]; exact K.onSeg_left _ _
+  · -- j is the last vertex
+    unfold numSegmentsOf at hn
+    cases hc : s.closed with
+    | false =>
+      rw [hc] at hn he
+      simp only [Bool.false_eq_true, if_false, Bool.false_and, Bool.false_or, decide_eq_false_iff_not,
+        not_lt] at hn he
+      rw [if_neg (by omega)] at hn
+      refine ⟨s.pts.size - 2, by omega, ?_⟩
+      have : (s.segmentAt (s.pts.size - 2)).b = s.pts[j]! := by
+        show (segmentAtOf s.pts (s.pts.size - 2)).b = _
+        unfold segmentAtOf
+        simp only
+        rw [if_neg (by simp; omega)]
+        congr 1; omega
+      rw [← this]; exact K.onSeg_right _ _
+    | true =>
+      rw [hc] at hn he
+      simp only [if_true, Bool.true_and, Bool.or_eq_false_iff, decide_eq_false_iff_not, not_lt] at hn he
+      rw [if_neg (by omega)] at hn
+      split_ifs at hn with h1
+      · -- closing vertex repeated: the last vertex is the first one
+        have hj' : j = s.pts.size - 1 := by omega
+        refine ⟨0, by omega, ?_⟩
+        have : (s.segmentAt 0).a = s.pts[j]! := by
+          show s.pts[0]! = _
+          rw [hj']; exact (beq_iff_eq.1 h1).symm
+        rw [← this]; exact K.onSeg_left _ _
+      · omega
+
+/-- ring × line string: a `true` answer exhibits a point of the line in the closed region -/
+theorem ringIntersectsLine_sound (s : Series) (hidx : s.index = none) (l : Line) (b : Bool)
+    (hmem : ∀ p, (ringContainsPoint (.ser s) p b).hit = true →
+      Spec.inRing (Spec.edges s.pts.toList s.closed) p = true) :
+    ringIntersectsLine (.ser s) l b = true →
+      ∃ p, (∃ i, i < l.numSegments ∧ OnSeg (l.segmentAt i).a (l.segmentAt i).b p) ∧
+        Spec.inRing (Spec.edges s.pts.toList s.closed) p = true := by
+  unfold ringIntersectsLine
+  by_cases h1 : ((Ring.ser s).empty || l.empty) = true
+  · rw [if_pos h1]; intro h; cases h
+  rw [if_neg h1]
+  by_cases h2 : (!(Ring.ser s).rect.intersects l.rect) = true
+  · rw [if_pos h2]; intro h; cases h
+  rw [if_neg h2]
+  have hle : l.empty = false := by
+    cases h : l.empty with
+    | false => rfl
+    | true => simp [h] at h1
+  by_cases h3 : (List.range l.numPoints).any (fun i => (ringContainsPoint (.ser s) l.pts[i]! b).hit) = true
+  · rw [if_pos h3]
+    intro _
+    rw [List.any_eq_true] at h3
+    obtain ⟨j, hj, hhit⟩ := h3
+    exact ⟨l.pts[j]!, vertex_on_segment l hle j (List.mem_range.1 hj), hmem _ hhit⟩
+  · rw [if_neg h3, List.any_eq_true]
+    rintro ⟨i, hi, hx⟩
+    obtain ⟨p, hp, hin⟩ := ringIntersectsSegment_sound s hidx (l.segmentAt i) b hmem hx
+    exact ⟨p, ⟨i, List.mem_range.1 hi, hp⟩, hin⟩
+
+/-- ring × ring: a `true` answer exhibits a boundary point of one ring in the closed region of the
+    other (which one depends on the rectangle areas) -/
+theorem ringIntersectsRing_sound (s t : Series) (hs : s.index = none) (ht : t.index = none) (b : Bool)
+    (hmemS : ∀ p, (ringContainsPoint (.ser s) p b).hit = true →
+      Spec.inRing (Spec.edges s.pts.toList s.closed) p = true)
+    (hmemT : ∀ p, (ringContainsPoint (.ser t) p b).hit = true →
+      Spec.inRing (Spec.edges t.pts.toList t.closed) p = true) :
+    ringIntersectsRing (.ser s) (.ser t) b = true →
+      (∃ p, (∃ i, i < t.numSegments ∧ OnSeg (t.segmentAt i).a (t.segmentAt i).b p) ∧
+        Spec.inRing (Spec.edges s.pts.toList s.closed) p = true) ∨
+      (∃ p, (∃ i, i < s.numSegments ∧ OnSeg (s.segmentAt i).a (s.segmentAt i).b p) ∧
+        Spec.inRing (Spec.edges t.pts.toList t.closed) p = true) := by
+  unfold ringIntersectsRing
+  by_cases h1 : ((Ring.ser s).empty || (Ring.ser t).empty) = true
+  · rw [if_pos h1]; intro h; cases h
+  rw [if_neg h1]
+  by_cases h2 : (!(Ring.ser s).rect.intersects (Ring.ser t).rect) = true
+  · rw [if_pos h2]; intro h; cases h
+  rw [if_neg h2]
+  by_cases hg : (Ring.ser t).rect.area > (Ring.ser s).rect.area
+  · simp only [hg, if_true]
+    rw [List.any_eq_true]
+    rintro ⟨i, hi, hx⟩
+    obtain ⟨p, hp, hin⟩ := ringIntersectsSegment_sound t ht ((Ring.ser s).segmentAt i) b hmemT hx
+    exact Or.inr ⟨p, ⟨i, List.mem_range.1 hi, hp⟩, hin⟩
+  · simp only [hg, if_false]
+    rw [List.any_eq_true]
+    rintro ⟨i, hi, hx⟩
+    obtain ⟨p, hp, hin⟩ := ringIntersectsSegment_sound s hs ((Ring.ser t).segmentAt i) b hmemS hx
+    exact Or.inl ⟨p, ⟨i, List.mem_range.1 hi, hp⟩, hin⟩
+
 end Geo
 
 #print axioms Geo.rect_intersects_rect_iff
@@ -228,9 +301,13 @@ end Geo
 #print axioms Geo.lineIntersectsLine_symm
 #print axioms Geo.lineIntersectsLine_iff_mk
 #print axioms Geo.point_intersects_iff
+#print axioms Geo.point_intersects_line_iff
 #print axioms Geo.point_intersects_rect_spec
 #print axioms Geo.geom_intersects_symm_pointrect
 #print axioms Geo.geom_intersects_dispatch_symm
 #print axioms Geo.geom_intersects_symm_partial
 #print axioms Geo.ringIntersectsSegment_sound
 #print axioms Geo.ringIntersectsSegment_sound_mk
+#print axioms Geo.vertex_on_segment
+#print axioms Geo.ringIntersectsLine_sound
+#print axioms Geo.ringIntersectsRing_sound
